@@ -1,6 +1,6 @@
 #!/bin/bash
 # usage: try_seeded.sh <patch.diff> <PROP> [more props]   apply a change to /repo, run quick checks, restore /repo
-cd /verif || exit 2
+cd ${VERIF_ROOT:-/verif} || exit 2
 if [ -n "$(git -C /repo status --porcelain)" ]; then echo "repo dirty"; exit 2; fi
 PATCH=$1; shift
 git -C /repo apply "$PATCH" || { echo "APPLY-FAILED"; exit 2; }
